@@ -253,7 +253,7 @@ Example C18_multichar_example :
 Proof. vm_compute. reflexivity. Qed.
 
 (* (placed last: the imports below shadow names of Csv.v such as load_chunks) *)
-From RxVerif Require Import Container.Json Container.JsonLines Container.C19EndToEnd Container.C18EndToEnd.
+From RxVerif Require Import Container.Json Container.JsonLines Container.C19EndToEnd Container.C18EndToEnd Container.MoreEndToEnd.
 (* ---------------------------------------------------------------------------------------------
    END TO END at the level of BYTES, no premise about numbers, codec or compression left (C18EndToEnd.v): rows -> CSV text
    (Csv.v, concrete int / float / bool layers) -> UTF-8 incremental codec model of C17 -> no compression or the gzip model of
@@ -315,6 +315,34 @@ Theorem C18_end_to_end_bytes_file_read_gzip : forall (p esc : Z),
   load_byte_chunks gz_decomp p esc types (JsonLines.file_read Z n (dump_bytes gz_comp p esc names rows)) = (rows, true).
 Proof. exact C18_e2e_bytes_file_read_gzip. Qed.
 Print Assumptions C18_end_to_end_bytes_file_read_gzip.
+(* the same behind the zstd frame model of C16 (raw-block encoder of the model, frame scanner; MoreEndToEnd.v) *)
+Theorem C18_end_to_end_bytes_any_rechunking_zstd : forall (p esc : Z),
+  p <> quote -> p <> esc -> esc <> quote ->
+  ~ float_char p ->
+  (forall b, ~ In p (str_bool b)) ->
+  p <> newline -> esc <> newline ->
+  cp_ok p -> cp_ok esc ->
+  forall (types : list ty) (names : list (list Z)) (rows : list (list (value okfl))) (r : list (list Z)),
+  Forall text_no_nl names ->
+  Forall (fun row => Forall2 field_ok types row /\ row <> [] /\ Forall value_no_nl row) rows ->
+  Forall (Forall cp_ok) names -> Forall (Forall value_cp_ok) rows ->
+  concat r = dump_bytes zs_comp p esc names rows ->
+  load_byte_chunks zs_decomp p esc types r = (rows, true).
+Proof. exact C18_e2e_bytes_any_rechunking_zstd. Qed.
+Print Assumptions C18_end_to_end_bytes_any_rechunking_zstd.
+Theorem C18_end_to_end_bytes_file_read_zstd : forall (p esc : Z),
+  p <> quote -> p <> esc -> esc <> quote ->
+  ~ float_char p ->
+  (forall b, ~ In p (str_bool b)) ->
+  p <> newline -> esc <> newline ->
+  cp_ok p -> cp_ok esc ->
+  forall (types : list ty) (names : list (list Z)) (rows : list (list (value okfl))) (n : nat),
+  Forall text_no_nl names ->
+  Forall (fun row => Forall2 field_ok types row /\ row <> [] /\ Forall value_no_nl row) rows ->
+  Forall (Forall cp_ok) names -> Forall (Forall value_cp_ok) rows ->
+  load_byte_chunks zs_decomp p esc types (JsonLines.file_read Z n (dump_bytes zs_comp p esc names rows)) = (rows, true).
+Proof. exact C18_e2e_bytes_file_read_zstd. Qed.
+Print Assumptions C18_end_to_end_bytes_file_read_zstd.
 (* the usual separators with the backslash as escape satisfy every side condition; two rows with a non-ASCII string holding
    the separator and a quote, read back in pieces of 1 and 5 bytes, both compression settings; a file cut inside a
    4-byte character is refused *)
